@@ -65,8 +65,9 @@ type gstate struct {
 	lastLabel, lastURL, lastMethod, lastLoc string
 	lastStatus                              int
 
-	log  []*reqRec
-	hits map[string]int // hook point -> hits on this goroutine
+	log    []*reqRec
+	offers []offer        // answers of the CRI credential function to calls made on this goroutine
+	hits   map[string]int // hook point -> hits on this goroutine
 
 	// gate / jitter
 	parker     bool // this goroutine parks at gate.parkPoint
@@ -74,6 +75,11 @@ type gstate struct {
 	gateResult string // "", "released", "timeout"
 	jitter     *prng.R
 	jitterUS   int
+}
+
+// offer is one call of the keychain's credential function by the resolver stack.
+type offer struct {
+	Host, Ref, User, Secret string
 }
 
 type gregistry struct {
@@ -514,7 +520,7 @@ func (w *world) realmOfClass(class string) string {
 }
 
 // scan applies the oracle to one request.
-func (w *world) scan(r *reqRec) (leaks []leak, ownSecrets int) {
+func (w *world) scan(r *reqRec) (leaks []leak, ownSecrets int, unjudged []string) {
 	txt := requestText(r)
 	target := w.hosts[r.Host]
 	seen := map[string]bool{}
@@ -549,32 +555,54 @@ func (w *world) scan(r *reqRec) (leaks []leak, ownSecrets int) {
 			}
 		}
 		sk := secretKindName(kind)
-		class := "credential-leak"
-		if kind == "hs" {
-			class = "header-leak"
+		via := "sent"
+		if r.Followed {
+			via = "forwarded-by-http-client"
 		}
-		if owner == "decoy" {
+		switch {
+		case kind == "hs":
+			// Sentence 2 of the statement: a header configured for a registry host is sent to
+			// that host only and never forwarded to the redirect location, on any path —
+			// whoever generates the request (fs/remote or the http client it uses).
+			if r.Followed {
+				leaks = append(leaks, leak{
+					key: fmt.Sprintf("header-leak:registry-header-forwarded-when-http-client-follows-redirect:to-%s", role),
+					what: fmt.Sprintf("the net/http client underneath fs/remote followed the redirect of a %s request and forwarded %q (configured for host %s only) to %s (%s %s)",
+						r.Path, m[0], owner, r.Host, r.Method, r.URL),
+					rec: r,
+				})
+			} else {
+				leaks = append(leaks, leak{
+					key:  fmt.Sprintf("header-leak:registry-header-sent-to-%s@%s", role, r.Path),
+					what: fmt.Sprintf("%s request (%s %s) to host %s carries %q, which is configured for host %s only", r.Path, r.Method, r.URL, r.Host, m[0], owner),
+					rec:  r,
+				})
+			}
+		case sk == "cri-credential" && owner == "decoy":
+			// Sentence 1: the keychain is the only source of these strings in the harness, so
+			// their presence in ANY request proves they were offered for the target reference
+			// although they belong to another reference, an earlier pull or a removed image.
 			leaks = append(leaks, leak{
 				key:  fmt.Sprintf("credential-leak:credential-of-other-reference-or-stale-or-removed-sent@%s", r.Path),
 				what: fmt.Sprintf("%s request to %s carries %q, a CRI credential that belongs to another image reference, an earlier pull or a removed image", r.Path, r.Host, m[0]),
 				rec:  r,
 			})
-			continue
-		}
-		if r.Followed {
+		case sk == "cri-credential" && !r.Followed:
+			// Sentence 1, "never when the request named a server address different from the
+			// host being contacted": this request was addressed by fs/remote / its authorizer
+			// itself to host X (or to the token realm X's challenge named), and carries the
+			// credentials of a pull request whose server address names another host.
 			leaks = append(leaks, leak{
-				key: fmt.Sprintf("%s:%s-forwarded-when-http-client-follows-redirect:to-%s", class, sk, role),
-				what: fmt.Sprintf("the net/http client underneath fs/remote followed the redirect of a %s request and forwarded %q (configured for host %s only) to %s (%s %s)",
-					r.Path, m[0], owner, r.Host, r.Method, r.URL),
-				rec: r,
+				key:  fmt.Sprintf("credential-leak:cri-credential-sent-to-%s@%s", role, r.Path),
+				what: fmt.Sprintf("%s request (%s %s) to host %s carries %q, captured from a pull request whose server address names host %s", r.Path, r.Method, r.URL, r.Host, m[0], owner),
+				rec:  r,
 			})
-			continue
+		default:
+			// Not derivable from the statement, recorded only: static (non-CRI) credentials,
+			// bearer tokens, and any credential that net/http itself forwards while following
+			// a redirect (e.g. Authorization to a sub-domain of the registry host).
+			unjudged = append(unjudged, fmt.Sprintf("%s %s to %s @%s", sk, via, role, r.Path))
 		}
-		leaks = append(leaks, leak{
-			key:  fmt.Sprintf("%s:%s-sent-to-%s@%s", class, sk, role, r.Path),
-			what: fmt.Sprintf("%s request (%s %s) to host %s carries %q, which is configured for host %s only", r.Path, r.Method, r.URL, r.Host, m[0], owner),
-			rec:  r,
-		})
 	}
 	return
 }
